@@ -65,6 +65,8 @@ where
         let keyspace = self.group.get_or_create_keyspace(&msg.keyspace).await;
 
         let last_updated = keyspace.send(LastUpdated).await;
+        #[cfg(datacake_verif)]
+        crate::verif::getstate_pause(&msg.keyspace).await;
         let set = keyspace
             .send(crate::keyspace::Serialize)
             .await
